@@ -3,6 +3,13 @@ import CashewsVerif.Model.Decor.Common
 Model of `cashews/decorators/cache/early.py` (`early`, `_get_result_for_early`) as reached through
 `Cache.early(ttl, early_ttl=…, background=…, protected=False)`.
 
+The store step of `_get_result_for_early` (`cond_result = condition(result, …)`, `backend.set(…)`) is inside the
+`try … finally` that releases the lock: when it raises after a successful execution nothing is stored, the lock
+is released, and the exception leaves `_get_result_for_early` — to the caller when there was nothing stored or the
+refresh runs in the foreground (`await task`, like D19), to nobody when the refresh runs in the background.
+A callable `ttl` is evaluated by `_wrap` before anything else and without the result, so it is not part of the
+store step here.
+
 Always used with an explicit `early_ttl` (the default `ttl * 0.33` is a float product outside this
 model).  Boundary mirrored from the code, not judged: at *exactly* `early_ttl` the stored result is
 still served without a refresh (`early_expire_at >= now`).
@@ -34,6 +41,8 @@ def call (c : Cfg) (s : St) (o : Outcome) : St × CallOut :=
     -- `if cached is _empty: return await _get_result_for_early(*args_to_call)`   (unlock=False)
     match o with
     | .ok => ({ s with t := save c s.t id, nexec := id + 1 }, ⟨.fresh s.t.now id, true, false⟩)
+    | .rejected => ({ s with nexec := id + 1 }, ⟨.fresh s.t.now id, true, false⟩)   -- `cond_result` False: nothing stored
+    | .storeFails _ l => ({ s with nexec := id + 1 }, ⟨.storeErr l, true, false⟩)  -- `condition(…)` / `backend.set` raises
     | _ => ({ s with nexec := id + 1 }, ⟨.raised o, true, false⟩)     -- `raise _exc`; nothing stored
   | some (stamp, id0, inner) =>
     -- `if early_expire_at >= datetime.now(timezone.utc): return return_or_raise(result)`
@@ -51,6 +60,8 @@ def call (c : Cfg) (s : St) (o : Outcome) : St × CallOut :=
         -- its `finally` deletes the lock either way
         match o with
         | .ok => ({ s with t := (save c t1 id).remove kAux, nexec := id + 1 }, ⟨.stored stamp id0, true, true⟩)
+        | .rejected => ({ s with t := t1.remove kAux, nexec := id + 1 }, ⟨.stored stamp id0, true, true⟩)
+        | .storeFails _ l => ({ s with t := t1.remove kAux, nexec := id + 1 }, ⟨.storeErr l, true, true⟩)
         | _ => ({ s with t := t1.remove kAux, nexec := id + 1 }, ⟨.raised o, true, true⟩)
 
 /-- a background `_get_result_for_early(..., unlock=True)` completes: store on success, then
@@ -61,6 +72,7 @@ def done (c : Cfg) (s : St) (i : Nat) (o : Outcome) : St × DoneRes :=
   | some (id, _) =>
     match o with
     | .ok => ({ s with t := (save c s.t id).remove kAux, inflight := s.inflight.eraseIdx i }, .stored)
+    | .rejected => ({ s with t := s.t.remove kAux, inflight := s.inflight.eraseIdx i }, .skipped)
     | _ => ({ s with t := s.t.remove kAux, inflight := s.inflight.eraseIdx i }, .failed)
 
 def step (c : Cfg) (s : St) : DOp → St × Ans
